@@ -9,10 +9,10 @@ import numpy as np
 ELEMENT_NAMES = ['hydrogen', 'helium', 'lithium', 'beryllium', 'boron', 'carbon', 'nitrogen', 'oxygen', 'fluorine',
                  'neon', 'sodium', 'magnesium', 'aluminium', 'silicon', 'phosphorus', 'sulfur', 'chlorine', 'argon']
 
-STREAMS = {  # decades each rate may span, absolute tolerance on fractions (= Coq constants tol_well / tol_wide)
-    "well": {"span": 1.0, "tol": 1e-9, "coq": "tol_well", "measured_worst": 1e-13},
-    "wide": {"span": 2.0, "tol": 1e-6, "coq": "tol_wide", "measured_worst": 4e-11},
-}
+STREAMS = {"well": {"span": 1.0}, "wide": {"span": 2.0}}     # decades each rate may span
+RES_THRESHOLD = F(1, 10 ** 12)    # = res_threshold, tol_resolved, tol_unresolved in coq/Model/C09_Check.v
+TOL_RESOLVED = 1e-7
+TOL_UNRESOLVED = 1.0
 TOL_INTERP = 1e-8
 
 
@@ -92,11 +92,16 @@ def species_charge(sp):
     return sum(F(i) * F(v) for s in sp for i, v in enumerate(s))
 
 
-def property_at_point(pt, tol):
+def base_tol(ex):
+    return TOL_RESOLVED if min(ex) >= RES_THRESHOLD else TOL_UNRESOLVED
+
+
+def property_at_point(pt, slack, ztol):
     """The property's statement evaluated on the implementation's outputs at one point.
     Returns a list of (claim, detail) that fail."""
     fails = []
     ex, reff = closed_form(pt["ion"], pt["rec"], pt["cx"], pt["n_e"], pt["n_d"])
+    tol = base_tol(ex) + slack
     z = len(pt["ion"])
     flux = [ex[k] * F(pt["ion"][k]) for k in range(z)]
     fmax = max(flux)
@@ -132,17 +137,18 @@ def property_at_point(pt, tol):
         elif kind == "neut":
             d = [F(v) for v in o["values"]]
             sc = species_charge(o["species"])
-            if any(v < 0 for v in d):
+            zt = F(ztol) if "@" in src else 0
+            if any(v < -zt for v in d):
                 fails.append(("neutrality variant returned a negative density", src))
             own = sum(F(i) * v for i, v in enumerate(d))
             if sc <= F(pt["n_e"]):
                 if abs(own + sc - F(pt["n_e"])) > F(1e-9) * F(pt["n_e"]):
                     fails.append(("charge of returned densities plus given species is not the electron density",
                                   "%s: %r vs n_e %r" % (src, float(own + sc), pt["n_e"])))
-            elif any(v != 0 for v in d):
+            elif any(abs(v) > zt for v in d):
                 fails.append(("given species exceed n_e but returned densities are not zero", src))
             tot = sum(d)
-            if tot > 0 and max(abs(a - b * tot) for a, b in zip(d, ex)) > F(tol) * tot:
+            if tot > 0 and max(abs(a - b * tot) for a, b in zip(d, ex)) > F(tol) * tot + zt:
                 fails.append(("neutrality densities are not proportional to the balance fractions", src))
     return fails
 
